@@ -698,6 +698,31 @@ pub fn generate(spec: &Spec) -> Program {
         }
     }
     let mut p = g.finish(spec.clone());
+    if let Spec::Import { .. } = spec {
+        // a third file whose name differs from `other.asm` in letter case only and which has other symbols at the very
+        // same positions (a file is a file name, not a file name modulo case); imported under a namespace of its own
+        if p.files.len() == 2 {
+            let mut decoy = String::new();
+            for line in p.files[1].1.lines() {
+                let l = line.replace("$fe,", "$00,").replace("$fd,", "$00,");
+                // the identifier `a` -> `z` (same length, so every position stays where it is)
+                let mut out = String::new();
+                let cs: Vec<char> = l.chars().collect();
+                for (i, c) in cs.iter().enumerate() {
+                    let word = |ch: Option<&char>| ch.map_or(false, |x| x.is_alphanumeric() || *x == '_' || *x == '$');
+                    if *c == 'a' && !word(if i > 0 { cs.get(i - 1) } else { None }) && !word(cs.get(i + 1)) {
+                        out.push('z');
+                    } else {
+                        out.push(*c);
+                    }
+                }
+                decoy.push_str(&out);
+                decoy.push('\n');
+            }
+            p.files.push(("OTHER.asm".into(), decoy));
+            p.files[0].1.push_str(".import * as up from \"OTHER.asm\"\n");
+        }
+    }
     if let Spec::Import { imp, .. } = spec {
         if IMPORTS[*imp] == "twice" {
             for d in p.defs.iter_mut() {
